@@ -81,16 +81,18 @@ int main() {
   galois::SharedMemSys Gs;
   int hw = (int)galois::substrate::getThreadPool().getMaxThreads();
   static Workload w; G = &w;
-  bool large = tier() && wl_chance(25);
-  generate(w, true, ORD_NONE, hw, 7, large ? (int)wl_range(1300, 2400) : 0);
+  // windowed execution (the initial work does not fit into one window of 1280 items): 3 % of the quick runs, 25 % thorough
+  bool large = wl_chance(tier() ? 25 : 3);
+  if (large) execs = 2;
+  generate(w, true, ORD_NONE, hw, 7, large ? (int)wl_range(1300, tier() ? 2400 : 1500) : 0);
   vsim_set_budget(600000 + 6000ull * w.items.size() * execs);
   use_local_state = variant == 2 || variant == 3;
   long break_at = variant == 4 ? wl_range(1, std::max<long>(1, w.total_closure)) : 0;
   vsim_note("workload", "items=%zu closure=%ld roots=%zu objs=%d execs=%d break_at=%ld", w.items.size(), w.total_closure, w.roots.size(), w.nobj, execs, break_at);
   std::vector<std::vector<int>> ref_seq; std::vector<long> ref_state; std::vector<int> ref_commits; int ref_threads = 0;
   for (int e = 0; e < execs; e++) {
-    int n = e == 0 ? 1 : (int)wl_range(2, std::max(2, hw));
-    if (e == 1 && wl_chance(30)) n = hw;
+    int n = e == 0 ? 1 : (int)wl_range(2, std::max(2, large ? std::min(hw, tier() ? 6 : 4) : hw));
+    if (e == 1 && wl_chance(30) && !large) n = hw;
     galois::setActiveThreads(n); n = (int)galois::getActiveThreads();
     objseq.assign(w.nobj, {});
     for (int o = 0; o < w.nobj; o++) { *w.objs[o].state = 0; *w.objs[o].stamp = 0; }
